@@ -770,7 +770,15 @@ def _signpun_rule(chk):
     rule = "C14-SIGNPUN"
     chk.rule(rule, "inttypes.c never passes the address of a uint64_t where an int64_t * is expected, or the reverse")
     prog = Program.load("default", units=["inttypes.c"])
-    tu = prog.tus["inttypes.c"]
+    n = _signpun_core(chk, prog.tus["inttypes.c"], rule)
+    if n == 0:
+        chk.note("%s: no call hands a 64-bit integer's address to a typed helper at present" % rule)
+    chk.floor(rule, 0, n)
+    from jv.report import must_fire
+    must_fire(chk, rule, lambda probe, ex: _signpun_core(probe, list(ex.tus.values())[0], rule), "c14_signpun.c", ["bad_mixed"])
+
+
+def _signpun_core(chk, tu, rule):
     n = 0
 
     def base(t):
@@ -804,10 +812,8 @@ def _signpun_rule(chk):
                 if at == pt:
                     chk.ok(rule, "%s: %s(%s) - %s" % (fn.name, c.callee, inner.text()[:16], at))
                 else:
-                    chk.violation(rule, "inttypes.c", fn.name, "%s:%s" % (c.callee, inner.text().replace(" ", "")[:16]), c.loc,
+                    chk.violation(rule, tu.name, fn.name, "%s:%s" % (c.callee, inner.text().replace(" ", "")[:16]), c.loc,
                                   "%s passes `%s` (%s) to %s, whose parameter is %s: the 64 bits are reinterpreted with the other signedness, so an "
                                   "int/u64 of 2^63 or more is taken for a negative number and orders below every non-negative int/s64" % (
                                       fn.name, inner.text()[:30], at, c.callee, pt))
-    if n == 0:
-        chk.note("%s: no call hands a 64-bit integer's address to a typed helper at present" % rule)
-    chk.floor(rule, 0, n)
+    return n
